@@ -1,5 +1,5 @@
 // auto-generated: "lalrpop 0.23.1"
-// sha3: 2821a0831a40e5d88681bb9f01dc93c7a631100d14bdb085a907daf24d63f528
+// sha3: 2818f553184c9277e0db5abb5654e58450f397810147dda16c81d56bb7a89d75
 #[allow(unused_extern_crates)]
 extern crate lalrpop_util as __lalrpop_util;
 #[allow(unused_imports)]
@@ -701,7 +701,7 @@ fn __action6<
     (_, __0, _): (usize, &'input str, usize),
 ) -> String
 {
-    b'}' as char.to_string()
+    (b'}' as char).to_string()
 }
 
 #[allow(unused_variables)]
